@@ -790,8 +790,8 @@ func (c *HostClient) doNonNilReqResp(req *protocol.Request, resp *protocol.Respo
 		shouldCloseConn = true
 	}
 
-	if resp.Header.StatusCode() == consts.StatusSwitchingProtocols &&
-		bytes.EqualFold(resp.Header.Peek(consts.HeaderConnection), bytestr.StrUpgrade) {
+	// (the upgrade option is a token of a list: "keep-alive, Upgrade")
+	if resp.Header.StatusCode() == consts.StatusSwitchingProtocols && respI.ConnectionUpgrade(&resp.Header) {
 		// can not reuse connection in this case, it's no longer http1 protocol.
 		// set BodyStream for (*Response).Hijack
 		resp.SetBodyStream(newUpgradeConn(c, cc), -1)
